@@ -32,11 +32,13 @@ RULE = (
 ASSUMPTIONS = [
     "premise enforced by construction: |difference| <= 2.8 < pi along every edge the algorithm uses (mask-internal 4-neighbour pairs; seam pairs too when wrap_around=True); nothing is assumed across region boundaries or diagonal contacts",
     "inputs are float32 tensors (the code accumulates in float32); the constancy/integrality bound is max(1e-4, 512*eps32*amplitude) rad with amplitude = max(2pi, max|phi|, max|out|); residuals are recorded as a fraction of that bound (worst measured fraction is in worst_residuals: >= 100x head-room), and the bound is orders of magnitude below the 2pi of any mis-assigned wrap",
+    "memory layouts: 40 % of the cases pass the phase map, the mask and the three bright-field arguments as permuted views, strided slices of a larger buffer or windows with a storage offset",
+    "process-global torch state: 35 % of the cases run under a float64 default dtype, no_grad, inference_mode, deterministic algorithms (warn_only), 2 threads, or with a requires_grad phase tensor; always restored in a finally block. float64 phase maps under a float64 default are judged at float64 precision (bound max(1e-10, 512*eps64*amplitude) rad); float64 maps under the float32 default are judged at float32 precision because the code keeps its wrap counts in the default dtype; the bright-field embedding is float32 by construction",
     "values outside the mask are arbitrary finite numbers and are not judged; NaN/inf inputs are outside the domain",
     "argument tensors (phase, mask, bf data/masks) are compared with snapshots after every call; the depth of the union-find forest is read by a wrapper on _final_offsets (informational: skipped and listed in hooks_missing if that name disappears)",
     "the Poisson method is outside the exactness claim: executed and recorded (deviation from the generating field), not judged",
 ]
-BUDGET = {"quick": {"soft_s": 240}, "thorough": {"soft_s": 900}}
+BUDGET = {"quick": {"soft_s": 600}, "thorough": {"soft_s": 1200}}
 MIN_EVALUATIONS = {"quick": 2000, "thorough": 12000}
 REQUIRED_COUNTERS = ["eval:not_constant_on_region", "eval:non_integer_multiple", "eval:unwrapped_input_changed", "eval:bf_not_constant_on_region", "eval:argument_modified"]
 
